@@ -296,6 +296,8 @@ inductive Decision where
   | alias (v : Nat)
   /-- the result is the result variable of another constraint, converted first with `AssignResultVar2Args` -/
   | redirect (con : Con)
+  /-- the C++ raises an error (`MP_RAISE`) -/
+  | raise (what : String)
   /-- the model does not represent this case exactly -/
   | unsupported
   deriving Repr, Inhabited
@@ -325,6 +327,13 @@ def preproAbs (e : Env) (a : Nat) : Decision :=
   else if le ub (fin 0) then .redirect (.lin 0 [(-1, a)])
   else .keep ((({} : Pre).narrow (fin 0) (smax (neg lb) ub)).setType (e a).int) (.abs a)
 
+/-- converter options read by the preprocessors (`cvt:pre:eqresult`, `cvt:pre:eqbinary`, `cvt:pre:unnest`; all default 1) -/
+structure Opts where
+  eqResult : Bool := true
+  eqBinVar : Bool := true
+  unnest : Bool := true
+  deriving DecidableEq, Repr, Inhabited
+
 /-- `FixEqualityResult` -/
 def fixEqualityResult (b : Pre) (rhs : Rat) (pre : Pre) : Option Pre :=
   if lt (fin rhs) b.lb || lt b.ub (fin rhs) then some (pre.narrow (fin 0) (fin 0))
@@ -342,8 +351,8 @@ def cmpKind (kind : Int) (body rhs : Rat) : Bool :=
 
 def b2r (b : Bool) : Rat := if b then 1 else 0
 
-/-- `PreprocessConstraint(CondLinConEQ&)` (options `cvt:pre:eqresult`, `cvt:pre:eqbinary` at their default 1) -/
-def preproCondLinEQ (e : Env) (rhs : Rat) (ts : LinT) : Decision :=
+/-- `PreprocessConstraint(CondLinConEQ&)` -/
+def preproCondLinEQO (o : Opts) (e : Env) (rhs : Rat) (ts : LinT) : Decision :=
   if ts.isEmpty then
     let r := fin (b2r (cmpKind 0 0 rhs))
     .keep (({} : Pre).narrow r r) (.clin 0 rhs ts)
@@ -353,30 +362,35 @@ def preproCondLinEQ (e : Env) (rhs : Rat) (ts : LinT) : Decision :=
     | [] => .unsupported        -- C++: `coef(0)` of an empty vector (undefined behaviour)
     | t0 :: _ =>
       let (ts2, rhs2) := if 0 < t0.1 then (ts1, rhs) else (negLin ts1, -rhs)
-      match fixEqualityResult (boundsLin e ts2) rhs2 preBool with
+      match (if o.eqResult then fixEqualityResult (boundsLin e ts2) rhs2 preBool else none) with
       | some p => .keep p (.clin 0 rhs2 ts2)
       | none =>
         match ts2 with
         | [(c, v)] =>
           let rhs3 := if c = 1 then rhs2 else rhs2 / c
-          if isBinaryVar e v then
+          if o.eqBinVar && isBinaryVar e v then
             if rhs3 = 1 then .alias v
             else if rhs3 = 0 then
               -- `MakeComplementVar` raises unless the bounds are exactly 0..1
-              if eq (e v).lb (fin 0) && eq (e v).ub (fin 1) then .redirect (.lin 1 [(-1, v)]) else .unsupported
+              if eq (e v).lb (fin 0) && eq (e v).ub (fin 1) then .redirect (.lin 1 [(-1, v)]) else .raise "complement"
             else .keep (preBool.narrow (fin 0) (fin 0)) (.clin 0 rhs3 [(1, v)])
           else .keep preBool (.clin 0 rhs3 [(1, v)])
         | _ => .keep preBool (.clin 0 rhs2 ts2)
 
+/-- the same with the options at their defaults -/
+def preproCondLinEQ (e : Env) (rhs : Rat) (ts : LinT) : Decision := preproCondLinEQO {} e rhs ts
+
 /-- `PreprocessConstraint(CondQuadConEQ&)` -/
-def preproCondQuadEQ (e : Env) (rhs : Rat) (ts : LinT) (qs : QuadT) : Decision :=
+def preproCondQuadEQO (o : Opts) (e : Env) (rhs : Rat) (ts : LinT) (qs : QuadT) : Decision :=
   if ts.isEmpty && qs.isEmpty then
     let r := fin (b2r (cmpKind 0 0 rhs))
     .keep (({} : Pre).narrow r r) (.cquad 0 rhs ts qs)
   else
-    match fixEqualityResult (boundsQL e ts qs) rhs preBool with
+    match (if o.eqResult then fixEqualityResult (boundsQL e ts qs) rhs preBool else none) with
     | some p => .keep p (.cquad 0 rhs ts qs)
     | none => .keep preBool (.cquad 0 rhs ts qs)
+
+def preproCondQuadEQ (e : Env) (rhs : Rat) (ts : LinT) (qs : QuadT) : Decision := preproCondQuadEQO {} e rhs ts qs
 
 /-- rounding of the right-hand side of a conditional inequality with integer body -/
 def roundRhs (kind : Int) (bodyInt : Bool) (rhs : Rat) : Rat :=
@@ -499,6 +513,13 @@ def prepro (e : Env) : Con → Decision
   | .unp .expa a p => .keep (({} : Pre).narrow (fin 0) pinf) (.unp .expa a p)
   | .unp .loga a p => .keep {} (.unp .loga a p)
 
+/-- `PreprocessConstraint` under given options (only the conditional equalities read them) -/
+def preproO (o : Opts) (e : Env) (c : Con) : Decision :=
+  match c with
+  | .clin kind rhs ts => if kind = 0 then preproCondLinEQO o e rhs ts else preproCondLinIneq e kind rhs ts
+  | .cquad kind rhs ts qs => if kind = 0 then preproCondQuadEQO o e rhs ts qs else preproCondQuadIneq e kind rhs ts qs
+  | c => prepro e c
+
 /-! ## converter state: variables, defining constraints, fixed-variable map -/
 
 structure State where
@@ -507,6 +528,7 @@ structure State where
   defs : Array (Option Con) := #[]
   /-- `map_fixed_vars_` -/
   fixed : List (ER × Nat) := []
+  opts : Opts := {}
   deriving Repr, Inhabited
 
 /-- bounds/type lookup; an index outside the model (never produced by the driver, which rejects it) reads as a free variable -/
@@ -567,11 +589,11 @@ def State.finish (s : State) (pre : Pre) (con : Con) : State × Res :=
 
 /-- conversion of a constraint whose preprocessing never redirects (`keep`/`alias` only) -/
 def State.assignBase (s : State) (c : Con) : State × Res :=
-  match prepro s.env c with
+  match preproO s.opts s.env c with
   | .keep pre con' =>
     let con'' := match con' with
-      | .and as => if pre.isConstant then con' else Con.and (s.integrateNested true as)
-      | .or as => if pre.isConstant then con' else Con.or (s.integrateNested false as)
+      | .and as => if pre.isConstant || !s.opts.unnest then con' else Con.and (s.integrateNested true as)
+      | .or as => if pre.isConstant || !s.opts.unnest then con' else Con.or (s.integrateNested false as)
       | _ => con'
     s.finish pre con''
   | .alias v => (s, .var v)
@@ -592,7 +614,8 @@ def State.assign (s : State) (c : Con) : State × Res :=
     let (s1, infeas) := s.narrowVar v l u
     if infeas then (s1, .throw "infeas") else s1.assignBase c
   | none =>
-    match prepro s.env c with
+    match preproO s.opts s.env c with
+    | .raise w => (s, .throw w)
     | .redirect c2 =>
       -- nested AssignResultVar2Args; then `set_result_var`; bounds 0..1 / defaults are not constant
       let r := State.resultVar (s.assignBase c2)
